@@ -724,10 +724,26 @@ Proof. intros G Hi Hr. induction fuel as [|f IH]; intros st W Hc; simpl; [exact 
   destruct (pr_recurse (pass tgp st)); [|exact Hp].
   pose proof (pass_wf _ _ _ W E) as W'. pose proof (pass_covered _ _ _ _ W Hi Hc E) as Hc'.
   destruct (G st' W' Hc') as [W2 [Hc2 Hv]].
+  destruct (is_mul (reorder st')); [|rewrite (Hv r Hr); exact Hp].
   specialize (IH (reorder st') W2 Hc2).
   destruct (eval_deltas f reorder tgp (reorder st')) as [| |st2]; [exact I| |].
   - rewrite <- Hp, <- (Hv r Hr). exact IH.
   - rewrite IH, (Hv r Hr). exact Hp. Qed.
+
+(* a product that is not a Mul any more: under the coverage hypothesis a lone
+   delta carries two target indices and is stuck *)
+Lemma lone_terminal tgp tgs st : incl tgs tgp -> covered tgs (sobjs st) -> is_mul st = false ->
+  terminal tgp st.
+Proof. intros Hi Hc Hm [i j] Hd. apply deltas_of_In in Hd.
+  unfold is_mul in Hm. destruct (sobjs st) as [|o [|o2 os]] eqn:Eo; [destruct Hd| |discriminate].
+  destruct Hd as [->|[]].
+  assert (Hin : forall x, x = i \/ x = j -> In x tgp).
+  { intros x Hx. destruct (in_dec index_eq_dec x tgs) as [Ht|Ht]; [apply Hi; exact Ht|].
+    destruct (Hc x) as [o [[<-|[]] [Hn _]]]; [|exact Ht|discriminate Hn].
+    unfold objs_idx, obj_idx; simpl. destruct Hx as [->| ->]; auto. }
+  unfold stuck. destruct (pk_of i j) as [[pref kill]|] eqn:Ep; [|left; reflexivity].
+  right. exists pref, kill. split; [reflexivity|].
+  destruct (pk_of_pair _ _ _ _ Ep) as [[-> ->]|[-> ->]]; split; try left; apply Hin; auto. Qed.
 
 (* re-ordering the arguments is such a step *)
 Lemma objs_idx_perm os os' x : Permutation os os' -> In x (objs_idx os) -> In x (objs_idx os').
@@ -817,14 +833,17 @@ Proof. unfold pass.
     apply delta_action_stuck. eapply first_action_None; eauto. Qed.
 
 (* every delta in the returned product is stuck: it has no preferred index,
-   or evaluating it would remove a target index or lose information *)
+   or evaluating it would remove a target index or lose information - unless
+   the product collapsed to a single object, which evaluate_deltas returns as
+   it is (a lone delta is not a Mul) *)
 Theorem eval_deltas_terminal fuel reorder tg st st' :
-  eval_deltas fuel reorder tg st = Done st' -> terminal tg st'.
+  eval_deltas fuel reorder tg st = Done st' -> terminal tg st' \/ is_mul st' = false.
 Proof. revert st. induction fuel as [|f IH]; intros st; simpl; [discriminate|].
   destruct (pr_state (pass tg st)) as [s1|] eqn:E; [|discriminate].
   destruct (pr_recurse (pass tg st)) eqn:Er.
-  - apply IH.
-  - intros H; inversion H; subst. eapply pass_terminal; eauto. Qed.
+  - destruct (is_mul (reorder s1)) eqn:Em; [apply IH|].
+    intros H; inversion H; subst. right; exact Em.
+  - intros H; inversion H; subst. left. eapply pass_terminal; eauto. Qed.
 
 Lemma terminalb_terminal tg st : terminalb tg st = true -> terminal tg st.
 Proof. unfold terminalb. destruct (first_action tg (deltas_of (sobjs st))) eqn:E; [discriminate|].
@@ -881,6 +900,7 @@ Theorem eval_deltas_fuel reorder tg :
 Proof. intros Hr. induction fuel as [|f IH]; intros st Hl; [lia|]. simpl.
   destruct (pr_state (pass tg st)) as [st'|] eqn:E; [|discriminate].
   destruct (pr_recurse (pass tg st)) eqn:Er; [|discriminate].
+  destruct (is_mul (reorder st')); [|discriminate].
   apply IH. pose proof (pass_decreases _ _ _ Er E). specialize (Hr st'). lia. Qed.
 
 (* ====================================================================== *)
@@ -969,6 +989,21 @@ Theorem eval_deltas_counted_sound fuel reorder st r :
   end.
 Proof. intros tgs G Hr W Hc.
   apply (eval_deltas_sound S T OM); auto. apply einstein_targets_counted. apply wf_objs_exponents; exact W. Qed.
+
+(* under the hypothesis of the property every delta that is left is stuck *)
+Theorem eval_deltas_terminal_covered fuel reorder tgp tgs :
+  good_step S T tgs reorder -> incl tgs tgp ->
+  forall st st', wf_objs (sobjs st) -> covered tgs (sobjs st) ->
+  eval_deltas fuel reorder tgp st = Done st' -> terminal tgp st'.
+Proof. intros G Hi. induction fuel as [|f IH]; intros st st' W Hc; simpl; [discriminate|].
+  destruct (pr_state (pass tgp st)) as [s1|] eqn:E; [|discriminate].
+  destruct (pr_recurse (pass tgp st)) eqn:Er.
+  - pose proof (pass_wf _ _ _ W E) as W'.
+    pose proof (pass_covered S T OM _ _ _ _ W Hi Hc E) as Hc'.
+    destruct (G s1 W' Hc') as [W2 [Hc2 _]].
+    destruct (is_mul (reorder s1)) eqn:Em; [apply IH; assumption|].
+    intros H; inversion H; subst. apply (lone_terminal tgp tgs); assumption.
+  - intros H; inversion H; subst. eapply pass_terminal; eauto. Qed.
 End Counted.
 
 (* ---------- the decidable hypotheses ---------- *)
@@ -983,3 +1018,109 @@ Proof. unfold coveredb. rewrite forallb_forall. intros H x Hx Hn. specialize (H 
   apply orb_true_iff in H. destruct H as [H|H]; [apply imem_In in H; contradiction|].
   apply existsb_exists in H. destruct H as [o [Ho Hc]]. exists o. split; [exact Ho|].
   destruct (is_delta o); [discriminate|]. split; [reflexivity|apply imem_In; exact Hc]. Qed.
+
+(* ====================================================================== *)
+(* Certificate for an observed call tree                                  *)
+(* ====================================================================== *)
+Lemma obj_eqb_eq a b : obj_eqb a b = true -> a = b.
+Proof. destruct a as [a1 z1], b as [b1 z2]. unfold obj_eqb; simpl. rewrite andb_true_iff.
+  intros [H1 H2]. apply atom_eqb_eq in H1. apply Z.eqb_eq in H2. subst; reflexivity. Qed.
+
+Lemma obj_facs_incl o os x : In o os -> In x (mono_idx (obj_facs o)) -> In x (mono_idx (objs_facs os)).
+Proof. intros Ho. unfold mono_idx, objs_facs. rewrite !in_flat_map. intros [f [Hf Hx]].
+  exists f. split; [apply in_flat_map; exists o; auto|exact Hx]. Qed.
+
+Lemma dd_objs_idx os x : In x (mono_idx (objs_facs (dd_objs os))) <-> In x (mono_idx (objs_facs os)).
+Proof. induction os as [|o os IH]; [tauto|]. cbn [dd_objs].
+  assert (Hc : In x (mono_idx (objs_facs (o :: dd_objs os))) <-> In x (mono_idx (objs_facs (o :: os)))).
+  { rewrite !mono_idx_objs_cons, !in_app_iff, IH. tauto. }
+  destruct (is_delta o) as [d|]; [|exact Hc].
+  destruct (existsb (obj_eqb o) (dd_objs os)) eqn:E; [|exact Hc].
+  apply existsb_exists in E. destruct E as [o' [Ho' Heq]]. apply obj_eqb_eq in Heq. subst o'.
+  rewrite mono_idx_objs_cons, in_app_iff, <- IH. split; [auto|].
+  intros [H|H]; [apply (obj_facs_incl o); assumption|exact H]. Qed.
+
+Section Trace.
+Variable S : Scalar.
+Variable T : tmodel S.
+Hypothesis OM : orbital_model S T.
+Hypothesis R : respects S T.
+Notation "0" := (k0 S). Notation "1" := (k1 S).
+Infix "+" := (kadd S). Infix "*" := (kmul S).
+Add Ring KRt : (Kring S).
+
+Lemma delta_idem r i j fs : In (ADelta i j, false) fs ->
+  delta_val S r i j * mono_val S T r fs = mono_val S T r fs.
+Proof. induction fs as [|f fs IH]; intros Hin; [destruct Hin|].
+  rewrite (mono_val_cons S T). destruct Hin as [->|Hin].
+  - unfold fac_val; simpl. unfold delta_val. destruct (Nat.eqb (r i) (r j)); ring.
+  - rewrite <- (IH Hin) at 2. ring. Qed.
+
+Lemma dd_objs_val r os : mono_val S T r (objs_facs (dd_objs os)) = mono_val S T r (objs_facs os).
+Proof. induction os as [|o os IH]; [reflexivity|]. cbn [dd_objs].
+  assert (Hc : mono_val S T r (objs_facs (o :: dd_objs os)) = mono_val S T r (objs_facs (o :: os))).
+  { change (objs_facs (o :: dd_objs os)) with (obj_facs o ++ objs_facs (dd_objs os)).
+    change (objs_facs (o :: os)) with (obj_facs o ++ objs_facs os).
+    rewrite !(mono_val_app S T), IH. reflexivity. }
+  destruct (is_delta o) as [[i j]|] eqn:Ed; [|exact Hc].
+  destruct (existsb (obj_eqb o) (dd_objs os)) eqn:E; [|exact Hc].
+  apply existsb_exists in E. destruct E as [o' [Ho' Heq]]. apply obj_eqb_eq in Heq. subst o'.
+  apply is_delta_Some in Ed. subst o.
+  change (objs_facs ((ADelta i j, 1%Z) :: os)) with ((ADelta i j, false) :: objs_facs os).
+  rewrite (mono_val_cons S T), <- IH. unfold fac_val; simpl. symmetry.
+  apply delta_idem. apply delta_in_facs. exact Ho'. Qed.
+
+Lemma eval_term_same tgs r c fs fs' :
+  (forall x, In x (mono_idx fs) <-> In x (mono_idx fs')) ->
+  (forall r', mono_val S T r' fs = mono_val S T r' fs') ->
+  eval_term S T tgs r (Term c fs) = eval_term S T tgs r (Term c fs').
+Proof. intros Hidx Hv. unfold eval_term.
+  assert (PC : Permutation (contracted tgs (Term c fs)) (contracted tgs (Term c fs'))).
+  { apply NoDup_Permutation; try apply contracted_NoDup'. intros x. rewrite !contracted_In.
+    unfold term_idx; simpl. rewrite Hidx. tauto. }
+  rewrite (sum_over_perm S T (term_idx (Term c fs)) _ _ _ r (term_val_depends S T _) (contracted_NoDup' _ _) PC).
+  apply sum_over_ext. intros r'. unfold term_val; simpl. rewrite Hv. reflexivity. Qed.
+
+Lemma dd_val tgs r st : state_val S T tgs r st = eval_term S T tgs r (dd_term st).
+Proof. unfold state_val, state_term, dd_term. apply eval_term_same.
+  - intros x. symmetry. apply dd_objs_idx.
+  - intros r'. symmetry. apply dd_objs_val. Qed.
+
+Definition oval (tgs : list index) (r : env) (o : option state) : K S :=
+  match o with Some s => state_val S T tgs r s | None => 0 end.
+
+Lemma same_val_sound tgs r a b : same_val tgs a b = true -> oval tgs r a = oval tgs r b.
+Proof. destruct a as [x|], b as [y|]; cbn [same_val oval]; try discriminate; [|reflexivity].
+  pose proof (term_key_val S T R tgs r (dd_term x)) as Hx.
+  pose proof (term_key_val S T R tgs r (dd_term y)) as Hy.
+  destruct (term_key tgs (dd_term x)) as [kx qx], (term_key tgs (dd_term y)) as [ky qy].
+  cbn [fst snd] in Hx, Hy. rewrite andb_true_iff. intros [Hk Hq].
+  apply key_eqb_eq in Hk. apply Qeq_bool_eq in Hq. subst ky.
+  rewrite !dd_val, Hx, Hy, (ofQ_eq S _ _ Hq). reflexivity. Qed.
+
+(* every accepted trace has the value of its first product, in every tensor
+   model that respects the declared tensor symmetries *)
+Theorem check_trace_sound tgp tgs r : incl tgs tgp -> inrange S T r tgs ->
+  forall obs st, check_trace tgp tgs st obs = true ->
+  state_val S T tgs r st = oval tgs r (last obs None).
+Proof. intros Hi Hr. induction obs as [|o rest IH]; intros st H; [discriminate|].
+  cbn [check_trace] in H. rewrite !andb_true_iff in H. destruct H as [[[Hw Hc] Hs] Hrest].
+  apply wf_objsb_ok in Hw. apply coveredb_ok in Hc.
+  pose proof (pass_sound S T OM tgp tgs st r Hw Hi (covered_cov _ _ Hc) Hr) as Hp.
+  pose proof (same_val_sound tgs r _ _ Hs) as Hv.
+  assert (Hstep : state_val S T tgs r st = oval tgs r o).
+  { rewrite <- Hv. destruct (pr_state (pass tgp st)); simpl; [symmetry; exact Hp|exact Hp]. }
+  destruct rest as [|o2 rest]; [exact Hstep|].
+  destruct o as [s|]; [|discriminate]. apply andb_true_iff in Hrest. destruct Hrest as [_ Hrest].
+  rewrite Hstep. simpl oval. rewrite (IH s Hrest). reflexivity. Qed.
+
+Lemma inclb_incl a b : inclb a b = true -> incl a b.
+Proof. unfold inclb. rewrite forallb_forall. intros H x Hx. apply imem_In. apply H; exact Hx. Qed.
+
+Theorem check_trace_top_sound st tg obs r :
+  let tgs := match tg with Some l => l | None => einstein_targets (sobjs st) end in
+  inrange S T r tgs -> check_trace_top st tg obs = true ->
+  state_val S T tgs r st = oval tgs r (last obs None).
+Proof. intros tgs Hr H. unfold check_trace_top in H. apply andb_true_iff in H. destruct H as [Hi H].
+  apply inclb_incl in Hi. eapply check_trace_sound; eauto. Qed.
+End Trace.
